@@ -695,3 +695,76 @@ func W1Depth(sink Sink) {
 		}
 	}
 }
+
+// W1Width: containers of every width 0..130 (and a few larger), alone and as two siblings of widths
+// (n, m) from a boundary grid, as arrays and as objects: size hints carried from one container to the
+// next and growth thresholds of slices and maps.
+func W1Width(sink Sink) {
+	c := &h.Case{Family: "W1Wd"}
+	c.DescFn = func(c *h.Case) string {
+		return fmt.Sprintf("%s of width %d then width %d (second absent if -1), element style %d", [...]string{"arrays", "objects"}[c.P[0]], c.P[1], c.P[2], c.P[3])
+	}
+	elems := []string{"1", `"s"`, "null", "[]", "{}", "-0.5", `"\u00e9"`, "true"}
+	build := func(buf []byte, obj bool, n, style int) []byte {
+		if obj {
+			buf = append(buf, '{')
+		} else {
+			buf = append(buf, '[')
+		}
+		for i := 0; i < n; i++ {
+			if i > 0 {
+				buf = append(buf, ',')
+			}
+			if obj {
+				if style == 2 && i > 0 && i%7 == 0 {
+					buf = append(buf, `"k0":`...) // duplicate key
+				} else {
+					buf = append(buf, fmt.Sprintf(`"k%d":`, i)...)
+				}
+			}
+			switch style {
+			case 0:
+				buf = append(buf, '1')
+			default:
+				buf = append(buf, elems[(i+style)%len(elems)]...)
+			}
+		}
+		if obj {
+			return append(buf, '}')
+		}
+		return append(buf, ']')
+	}
+	buf := make([]byte, 0, 1<<14)
+	for o := 0; o < 2; o++ {
+		for n := 0; n <= 130; n++ {
+			for style := 0; style < 3; style++ {
+				c.Input = build(buf[:0], o == 1, n, style)
+				c.Desc = ""
+				c.P = [4]int{o, n, -1, style}
+				sink(c)
+			}
+		}
+		for _, n := range []int{255, 256, 257, 511, 512, 513, 1023, 1024, 1025} {
+			c.Input = build(buf[:0], o == 1, n, 1)
+			c.Desc = ""
+			c.P = [4]int{o, n, -1, 1}
+			sink(c)
+		}
+		grid := []int{0, 1, 2, 3, 4, 5, 7, 8, 9, 15, 16, 17, 31, 32, 33, 63, 64, 65, 100}
+		for _, n := range grid {
+			for _, m := range grid {
+				for style := 0; style < 2; style++ {
+					b := append(buf[:0], '[')
+					b = build(b, o == 1, n, style)
+					b = append(b, ',')
+					b = build(b, o == 1, m, style)
+					b = append(b, ']')
+					c.Input = b
+					c.Desc = ""
+					c.P = [4]int{o, n, m, style}
+					sink(c)
+				}
+			}
+		}
+	}
+}
